@@ -2,6 +2,7 @@ package client
 
 import (
 	"errors"
+	"github.com/truora/minidyn/verifhook"
 
 	"github.com/aws/aws-sdk-go/aws"
 	"github.com/aws/aws-sdk-go/aws/awserr"
@@ -141,6 +142,8 @@ func ClearTable(client dynamodbiface.DynamoDBAPI, tableName string) error {
 	table.Clear()
 
 	for _, index := range table.Indexes {
+		verifhook.At("client.clearTable.beforeIndex")
+
 		index.Clear()
 	}
 
